@@ -38,7 +38,7 @@ def spec_c12(impl, scn):
     return [f for f in f2 if f[0] in ("monotone", "change_only_when_idle")]
 
 def nontrivial(impl):
-    return any(re.match(r"C s\d+ ", l) or l.endswith(" throw") for l in impl) and sum(1 for l in impl if l.startswith("H ")) >= 2
+    return any(re.match(r"C [sa]\d+ ", l) or l.endswith(" throw") for l in impl) and sum(1 for l in impl if l.startswith("H ")) >= 2
 
 CHECK = ScenarioCheck("C12", ["SimVerif.Props.C12"], "kernel", gen, spec_c12, nontrivial,
     "the intervention matrix of C04 (cancel / close / destroy / supersede at every event boundary of TCP transfers over lossy and loss-free routes, UDP exchanges, pending accepts, connects, resolves and timers) plus handlers that throw (run()'s catch-all, then restart and run on), all under ASan + UBSan + libstdc++ assertions; any sanitizer report, crash or hang is a violation; non-trivial = an intervention executed and >= 2 completions",
